@@ -6,6 +6,8 @@ answer (`convert`), so in every schedule a confirmation issued after the answer 
 -/
 import Chokan.Model.Server
 import Chokan.Lemmas.Kkc
+import Chokan.Props.C03
+import Chokan.Props.C08
 
 namespace Chokan.Props.C15
 open Chokan.Server Chokan.Kkc Chokan.Dic
@@ -86,5 +88,317 @@ theorem C15_register_once (c : Cfg) (s : State) (e : Entry) (rest : List Entry) 
   simp only [applyEntry, hp, Option.map_eq_some_iff] at h
   obtain ⟨d, _, rfl⟩ := h
   exact ⟨rfl, rfl⟩
+
+/-! ## every interleaving: histories of atomic steps -/
+
+/-- What every step keeps of the session store: ids stay below the next id, … -/
+theorem sidsBelow_step (c : Cfg) (s : State) (op : Op) (h : SidsBelow s) : SidsBelow (stepOp c s op) := by
+  cases op with
+  | convert ctx input =>
+    simp only [stepOp]
+    cases hc : convert c s ctx input with
+    | none => exact h
+    | some r =>
+      obtain ⟨s', sid, cs⟩ := r
+      exact (C15_sids_fresh_convert c s s' ctx input sid cs h hc).1
+  | confirm sid cid now =>
+    have hsub : ∀ x ∈ (confirm c s sid cid now).sessions, x ∈ s.sessions := by
+      intro x hx
+      have hf : ∀ x ∈ s.sessions.filter (·.sid != sid), x ∈ s.sessions := fun x hx => (List.mem_filter.1 hx).1
+      unfold confirm popSession at hx
+      cases hs : s.sessions.find? (·.sid == sid) with
+      | none => simp only [hs] at hx; exact hf x hx
+      | some sess' =>
+        simp only [hs] at hx
+        cases hcb : (cid.bind fun i => sess'.cands[i]?) with
+        | none => simp only [hcb] at hx; exact hf x hx
+        | some cand =>
+          simp only [hcb] at hx
+          cases hi : independentWord cand.chain <;> cases hw : withAffix cand.chain <;>
+            (simp only [hi, hw] at hx; exact hf x hx)
+    have hn : (confirm c s sid cid now).nextSid = s.nextSid := by
+      unfold confirm popSession
+      cases hs : s.sessions.find? (·.sid == sid) with
+      | none => rfl
+      | some sess' =>
+        simp only
+        cases hcb : (cid.bind fun i => sess'.cands[i]?) with
+        | none => rfl
+        | some cand =>
+          simp only
+          cases independentWord cand.chain <;> cases withAffix cand.chain <;> rfl
+    intro x hx
+    show x.sid < (confirm c s sid cid now).nextSid
+    rw [hn]; exact h x (hsub x hx)
+  | register k r w =>
+    simp only [stepOp]
+    cases hr : register c s k r w with
+    | none => exact h
+    | some s' =>
+      unfold register at hr
+      simp only [Option.map_eq_some_iff] at hr
+      obtain ⟨e, _, rfl⟩ := hr
+      exact h
+  | apply =>
+    simp only [stepOp]
+    cases ha : applyEntry c s with
+    | none => exact h
+    | some s' =>
+      unfold applyEntry at ha
+      cases hp : s.pending with
+      | nil => simp only [hp, Option.some.injEq] at ha; subst ha; exact h
+      | cons e rest =>
+        simp only [hp, Option.map_eq_some_iff] at ha
+        obtain ⟨d, _, rfl⟩ := ha
+        exact h
+  | save =>
+    simp only [stepOp, save]
+    split
+    · exact h
+    · exact h
+
+theorem nextSid_mono_step (c : Cfg) (s : State) (op : Op) : s.nextSid ≤ (stepOp c s op).nextSid := by
+  cases op with
+  | convert ctx input =>
+    simp only [stepOp]
+    cases hc : convert c s ctx input with
+    | none => exact Nat.le_refl _
+    | some r =>
+      obtain ⟨s', sid, cs⟩ := r
+      unfold convert at hc
+      simp only [Option.map_eq_some_iff, Prod.mk.injEq] at hc
+      obtain ⟨_, _, rfl, _, _⟩ := hc
+      simp
+  | confirm sid cid now =>
+    simp only [stepOp]
+    unfold confirm popSession
+    cases hs : s.sessions.find? (·.sid == sid) with
+    | none => exact Nat.le_refl _
+    | some sess' =>
+      simp only
+      cases hcb : (cid.bind fun i => sess'.cands[i]?) with
+      | none => exact Nat.le_refl _
+      | some cand =>
+        simp only
+        cases independentWord cand.chain <;> cases withAffix cand.chain <;> exact Nat.le_refl _
+  | register k r w =>
+    simp only [stepOp]
+    cases hr : register c s k r w with
+    | none => exact Nat.le_refl _
+    | some s' =>
+      unfold register at hr
+      simp only [Option.map_eq_some_iff] at hr
+      obtain ⟨e, _, rfl⟩ := hr
+      exact Nat.le_refl _
+  | apply =>
+    simp only [stepOp]
+    cases ha : applyEntry c s with
+    | none => exact Nat.le_refl _
+    | some s' =>
+      unfold applyEntry at ha
+      cases hp : s.pending with
+      | nil => simp only [hp, Option.some.injEq] at ha; subst ha; exact Nat.le_refl _
+      | cons e rest =>
+        simp only [hp, Option.map_eq_some_iff] at ha
+        obtain ⟨d, _, rfl⟩ := ha
+        exact Nat.le_refl _
+  | save =>
+    simp only [stepOp, save]
+    split <;> exact Nat.le_refl _
+
+/-- … and a stored session stays exactly as it is under every step that is not its own confirmation. -/
+theorem session_kept_step (c : Cfg) (s : State) (op : Op) (sid : Nat) (sess : Session)
+    (hb : SidsBelow s) (hlt : sid < s.nextSid)
+    (hop : ∀ cid now, op ≠ .confirm sid cid now)
+    (h : s.sessions.find? (·.sid == sid) = some sess) :
+    (stepOp c s op).sessions.find? (·.sid == sid) = some sess := by
+  cases op with
+  | convert ctx input =>
+    simp only [stepOp]
+    cases hc : convert c s ctx input with
+    | none => exact h
+    | some r =>
+      obtain ⟨s', sid', cs⟩ := r
+      unfold convert at hc
+      simp only [Option.map_eq_some_iff, Prod.mk.injEq] at hc
+      obtain ⟨_, _, rfl, _, _⟩ := hc
+      simp only
+      rw [List.find?_append, h]; rfl
+  | confirm sid' cid now =>
+    have hne : sid' ≠ sid := by
+      intro he; subst he; exact hop cid now rfl
+    exact C15_session_survives_other_confirm c s sid sid' cid now sess hne h
+  | register k r w =>
+    simp only [stepOp]
+    cases hr : register c s k r w with
+    | none => exact h
+    | some s' =>
+      unfold register at hr
+      simp only [Option.map_eq_some_iff] at hr
+      obtain ⟨e, _, rfl⟩ := hr
+      exact h
+  | apply =>
+    simp only [stepOp]
+    cases ha : applyEntry c s with
+    | none => exact h
+    | some s' =>
+      unfold applyEntry at ha
+      cases hp : s.pending with
+      | nil => simp only [hp, Option.some.injEq] at ha; subst ha; exact h
+      | cons e rest =>
+        simp only [hp, Option.map_eq_some_iff] at ha
+        obtain ⟨d, _, rfl⟩ := ha
+        exact h
+  | save =>
+    simp only [stepOp, save]
+    split <;> exact h
+
+/-- Session ids are fresh in every reachable state (any history from a start state). -/
+theorem C15_sids_fresh_history (c : Cfg) (s : State) (ops : List Op) (h : SidsBelow s) :
+    SidsBelow (runOps c s ops) := by
+  induction ops generalizing s with
+  | nil => exact h
+  | cons op t ih => exact ih (stepOp c s op) (sidsBelow_step c s op h)
+
+theorem session_kept_history (c : Cfg) (ops : List Op) : ∀ (s : State) (sid : Nat) (sess : Session),
+    SidsBelow s → sid < s.nextSid → (∀ op ∈ ops, ∀ cid now, op ≠ .confirm sid cid now) →
+    s.sessions.find? (·.sid == sid) = some sess →
+    (runOps c s ops).sessions.find? (·.sid == sid) = some sess := by
+  induction ops with
+  | nil => intro s sid sess _ _ _ h; exact h
+  | cons op t ih =>
+    intro s sid sess hb hlt hops h
+    exact ih (stepOp c s op) sid sess (sidsBelow_step c s op hb)
+      (Nat.lt_of_lt_of_le hlt (nextSid_mono_step c s op))
+      (fun o ho => hops o (List.mem_cons_of_mem _ ho))
+      (session_kept_step c s op sid sess hb hlt (hops op (by simp)) h)
+
+/-- **An acknowledged conversion can always be confirmed, under every interleaving**: after a conversion
+answered with session id `sid`, let any sequence of steps of other clients and of the background tasks
+happen (conversions, confirmations of other ids, registrations, updater steps, saves — anything but a
+confirmation of `sid` itself). The confirmation of candidate `i` then finds the session and changes the
+learned counts exactly as if it had been processed right after the conversion, on the counts of that
+moment: the confirmed word's count in the conversion's context is updated once and stale entries expire. -/
+theorem C15_confirm_honoured (c : Cfg) (s s1 : State) (ctx : Ctx) (input : Str) (sid : Nat) (cs : List Cand)
+    (ops : List Op) (i : Nat) (cand : Cand) (w : Str) (now : Int)
+    (hb : SidsBelow s) (hconv : convert c s ctx input = some (s1, sid, cs))
+    (hops : ∀ op ∈ ops, ∀ cid now, op ≠ .confirm sid cid now)
+    (hi : cs[i]? = some cand) (hw : independentWord cand.chain = some w) :
+    let s2 := runOps c s1 ops
+    (confirm c s2 sid (some i) now).freq = expire (updateWord s2.freq ctx w now) now c.expiryMs ∧
+    (confirm c s2 sid (some i) now).sessions.find? (·.sid == sid) = none := by
+  obtain ⟨hb1, hsid⟩ := C15_sids_fresh_convert c s s1 ctx input sid cs hb hconv
+  have hfresh : ∀ x ∈ s.sessions, x.sid ≠ sid := by
+    intro x hx; have := hb x hx; omega
+  obtain ⟨sess, hfind, hctx, hcs⟩ := C15_session_recorded c s s1 ctx input sid cs hconv hfresh
+  have hlt : sid < s1.nextSid := by
+    unfold convert at hconv
+    simp only [Option.map_eq_some_iff, Prod.mk.injEq] at hconv
+    obtain ⟨_, _, rfl, _, _⟩ := hconv
+    simp [hsid]
+  have hkept := session_kept_history c ops s1 sid sess hb1 hlt hops hfind
+  intro s2
+  have hk : s2.sessions.find? (·.sid == sid) = some sess := hkept
+  constructor
+  · unfold confirm popSession
+    simp only [hk, Option.bind_some, hcs, hi, hw, hctx]
+    cases withAffix cand.chain <;> rfl
+  · have hnone : (s2.sessions.filter (·.sid != sid)).find? (·.sid == sid) = none := by
+      rw [List.find?_eq_none]
+      intro x hx
+      have := (List.mem_filter.1 hx).2
+      simpa using this
+    unfold confirm popSession
+    simp only [hk, Option.bind_some, hcs, hi, hw]
+    cases withAffix cand.chain <;> exact hnone
+
+/-- Every step other than the updater's only appends to the entry channel … -/
+theorem pending_append_step (c : Cfg) (s : State) (op : Op) (hop : op ≠ .apply) :
+    ∃ suffix, (stepOp c s op).pending = s.pending ++ suffix := by
+  cases op with
+  | convert ctx input =>
+    simp only [stepOp]
+    cases hc : convert c s ctx input with
+    | none => exact ⟨[], by simp⟩
+    | some r =>
+      obtain ⟨s', sid', cs⟩ := r
+      unfold convert at hc
+      simp only [Option.map_eq_some_iff, Prod.mk.injEq] at hc
+      obtain ⟨_, _, rfl, _, _⟩ := hc
+      exact ⟨[], by simp⟩
+  | confirm sid cid now =>
+    simp only [stepOp]
+    unfold confirm popSession
+    cases hs : s.sessions.find? (·.sid == sid) with
+    | none => exact ⟨[], by simp⟩
+    | some sess' =>
+      simp only
+      cases hcb : (cid.bind fun i => sess'.cands[i]?) with
+      | none => exact ⟨[], by simp⟩
+      | some cand =>
+        simp only
+        cases hwa : withAffix cand.chain with
+        | none => cases independentWord cand.chain <;> exact ⟨[], by simp⟩
+        | some p => cases independentWord cand.chain <;> exact ⟨[⟨p.1, p.2, .noun .common⟩], rfl⟩
+  | register k r w =>
+    simp only [stepOp]
+    cases hr : register c s k r w with
+    | none => exact ⟨[], by simp⟩
+    | some s' =>
+      unfold register at hr
+      simp only [Option.map_eq_some_iff] at hr
+      obtain ⟨e, _, rfl⟩ := hr
+      exact ⟨[e], rfl⟩
+  | apply => exact absurd rfl hop
+  | save =>
+    simp only [stepOp, save]
+    split <;> exact ⟨[], by simp⟩
+
+/-- … and the updater, run until the channel is empty, applies what was in it exactly once and in order
+(`drain` = as many updater steps as there are entries; `none` = an updater panic). -/
+def drain (c : Cfg) : Nat → State → Option State
+  | 0, s => some s
+  | n + 1, s => (applyEntry c s).bind (drain c n)
+
+theorem C15_registrations_applied_once (c : Cfg) : ∀ (n : Nat) (s s' : State), s.pending.length = n →
+    drain c n s = some s' → s'.pending = [] ∧ s'.userDict = s.userDict ++ s.pending
+  | 0, s, s', hn, h => by
+    simp only [drain, Option.some.injEq] at h
+    subst h
+    have : s.pending = [] := List.eq_nil_of_length_eq_zero hn
+    simp [this]
+  | n + 1, s, s', hn, h => by
+    simp only [drain] at h
+    cases ha : applyEntry c s with
+    | none => simp [ha] at h
+    | some s1 =>
+      simp only [ha, Option.bind_some] at h
+      cases hp : s.pending with
+      | nil => simp [hp] at hn
+      | cons e rest =>
+        obtain ⟨h1, h2⟩ := C15_register_once c s e rest s1 hp ha
+        have := C15_registrations_applied_once c n s1 s' (by rw [h1]; simp [hp] at hn; omega) h
+        rw [h1, h2] at this
+        exact ⟨this.1, by rw [this.2]; simp⟩
+
+/-! Non-vacuity of `C15_confirm_honoured`: a concrete start state (two homophones for か), the real
+configuration, a conversion that answers with session 0, and a history of other clients' steps. -/
+
+def exState : State :=
+  { base := C03.exDict, tankan := [], dict := C03.exDict, freq := [], userDict := [], sessions := [], pending := [],
+    nextSid := 0, hasDir := true, saved := none }
+
+def exOps : List Op :=
+  [.convert .normal [12363, 12363], .confirm 1 (some 1) 5, .register .commonNoun [12363] [34442], .apply, .save]
+
+example : SidsBelow exState := by intro x hx; cases hx
+
+example : (convert C08.cfg exState .normal [12363]).map
+      (fun r => (r.2.1, (r.2.2[0]?).bind fun cand => independentWord cand.chain)) = some (0, some [34442]) ∧
+    (∀ op ∈ exOps, ∀ cid now, op ≠ Op.confirm 0 cid now) := by
+  refine ⟨by decide +kernel, ?_⟩
+  intro op hop cid now
+  simp only [exOps, List.mem_cons, List.not_mem_nil, or_false] at hop
+  rcases hop with rfl | rfl | rfl | rfl | rfl <;> simp
 
 end Chokan.Props.C15
